@@ -156,7 +156,7 @@ LAYOUTS = ['C', 'F', 'view', 'i64']
 def pick_layout(rng, values, p_default=0.7):
     if rng.random() < p_default:
         return 'C'
-    lay = LAYOUTS[int(rng.integers(1, 4))]
+    lay = (LAYOUTS + ['reuse'])[int(rng.integers(1, 5))]
     if lay == 'i64' and not is_integral(values):
         lay = 'F'
     return lay
@@ -185,7 +185,18 @@ def present(values, layout):
         return big[1:1 + 2 * len(v):2]
     if layout == 'i64':
         return np.ascontiguousarray(v).astype(np.int64)
+    if layout == 'reuse':
+        # the caller's buffer is refilled with new values: same object identity, shape and address as an earlier
+        # call, different contents (hostile to any state the library might key on id()/shape instead of values)
+        buf = _REUSE.get(v.shape)
+        if buf is None:
+            buf = _REUSE[v.shape] = np.empty(v.shape, dtype=float)
+        buf[...] = v
+        return buf
     raise ValueError(layout)
+
+
+_REUSE = {}
 
 
 def threshold(rng, cost=None):
